@@ -11,6 +11,8 @@
 // projects what the real coca code returned. It holds no expected values.
 package main
 
+import "encoding/json"
+
 type Entry struct {
 	// pom: "dep"; gradle: "sq" | "dq" | "psq" | "pdq" | "project" | "pproject" | "filetree" | "files" | "map" | "platform"
 	Notation string `json:"notation"`
@@ -57,6 +59,8 @@ type Input struct {
 type Case struct {
 	Case  string `json:"case"`
 	Input Input  `json:"input"`
+	// what the TLA+ Machine computed for this input (TLC cases only); passed through untouched, never read here
+	Machine json.RawMessage `json:"machine,omitempty"`
 }
 
 type Dep struct {
@@ -91,6 +95,7 @@ type Record struct {
 	Observed Obs    `json:"observed"`
 	// the rendered files (for humans reading a replay; TLC does not read it)
 	Rendered map[string]string `json:"rendered,omitempty"`
+	Machine  json.RawMessage   `json:"machine,omitempty"`
 }
 
 func normalize(in *Input) {
